@@ -100,9 +100,6 @@ func NewFieldsFromKVString(kvs string) (Fields, error) {
 	var sb strings.Builder
 	idx := 0
 	for i, v := range res {
-		if len(v) > 255 {
-			return "", errors.Errorf("field name or value cannot exceed 255 bytes.")
-		}
 		v := kvstring.TrimSpaces(v)
 		if len(v) == 0 && i&1 == 0 {
 			return "", errors.Errorf("tag name (for value=%s) could not be empty: %s", kvs, v)
@@ -114,6 +111,11 @@ func NewFieldsFromKVString(kvs string) (Fields, error) {
 			if err != nil {
 				return "", errors.Wrapf(err, "wrong value %s, seems quotated, but could not unqote it", v1)
 			}
+		}
+
+		// the limit is for what is stored: the length must fit the one byte length prefix
+		if len(v) > 255 {
+			return "", errors.Errorf("field name or value cannot exceed 255 bytes.")
 		}
 
 		sb.WriteByte(byte(len(v)))
